@@ -96,15 +96,15 @@ def basic_render(
             nbs = sorted(helpers.neighbors(vert), key=sort)
         else:
             nbs = helpers.neighbors(vert)
+        nodes = []
         for end in nbs:
             if rfunc:
                 node = rfunc(end)
             else:
                 node = repr(end)
-            line += f"{node}, "
+            nodes.append(f"{node}")
 
-        # remove trailing comma & space
-        line = line[:-2]
+        line += ", ".join(nodes)
         lines.append(line)
 
     return "\n".join(lines)
